@@ -29,6 +29,11 @@ for _k, _tb in _T_B_VARIANTS.items():
         "target": _ir({"a": _p(), "b": _tb}),
         "other": _ir({"b": _O_B, "c": _p(), "d": _p("str", ("lit", None), "<absent>")}),
     }))
+# the signature's default is a *text* (a class merged with its __init__ hands over plain values): '' is a default like any other (seed C07-8)
+_cases.append(Case("shared[typ-str,default-None;other-default-str]", {
+    "target": _ir({"a": _p(), "b": _T_B_VARIANTS["typ-str,default-None"]}),
+    "other": _ir({"b": _p("str", "str", "str"), "c": _p(), "d": _p("str", ("lit", None), "<absent>")}),
+}))
 _cases.append(Case("target-empty", {"target": _ir({}), "other": _ir({"b": _O_B, "c": _p()})}))
 _cases.append(Case("other-empty", {"target": _ir({"a": _p(), "b": _p()}), "other": _ir({})}))
 _SHARED = [c.name for c in _cases if c.name.startswith("shared")]
@@ -57,6 +62,9 @@ ir_merge = Contract(
         Clause("M2-default-filled", "result['params']['b']['default'] == %s['default']" % _OB,
                when=["shared[typ-none,default-absent]", "shared[typ-str,default-None]", "shared[typ-none,default-NoneStr]"],
                note="a missing / None default is filled from the signature"),
+        Clause("M2-default-filled-text", "%s['default'] in ('None', '(None)') or result['params']['b']['default'] == %s['default']" % (_OB, _OB),
+               when=["shared[typ-str,default-None;other-default-str]"],
+               note="C07: the signature fills the gap with whatever default it has - the empty text included; only the spellings of None count as 'no default'"),
         Clause("M3", "result['params']['c'] is other['params']['c'] and result['params']['d'] is other['params']['d'] and result['params']['a'] is target['params']['a']",
                when=_SHARED, note="parameters only one side knows are carried as they are"),
         Clause("M4", "result['params'] is other['params']", when=["target-empty"], note="nothing documented: the signature's parameters are taken over"),
